@@ -173,6 +173,23 @@ def session(concepts, seed, sid):
             sparse_t = D(properties[:3], long_names, [tuple(i % 197 == 5 or (j == 2 and i % 401 == 9) for i in range(len(long_names)))
                                                       for j in range(3)])
             rec('remove_empty_properties-long-axis', lambda: (len(sparse_t.remove_empty_properties()), sparse_t.properties))
+        if kind == 3:
+            # an edited copy of a larger table merged back into the original: a handful of differing
+            # cells (several in one row and in one column) among hundreds of equal ones
+            bn, bm = rng.randint(16, 45), rng.randint(16, 45)
+            bo = [f'{words[i % 16]}#{i}' for i in range(bn)]
+            bp = [f'+{words[(i * 5) % 16]}{i}' for i in range(bm)]
+            big = D(bo, bp, [tuple(rng.random() < .4 for _ in bp) for _ in bo])
+            edited = big.copy()
+            row, col = rng.choice(bo), rng.choice(bp)
+            for p_ in rng.sample(bp, rng.randint(2, 4)):
+                edited[row, p_] = not big[row, p_]
+            for o_ in rng.sample(bo, rng.randint(1, 3)):
+                edited[o_, col] = not big[o_, col]
+            rec('union-conflict-message-sparse', lambda: repr(big.union(edited)))
+            rec('or-conflict-message-sparse', lambda: repr(edited | big))
+            rec('intersection-conflict-message-sparse', lambda: repr(big.intersection(edited)))
+            rec('union_update-conflict-message-sparse', lambda: repr(big.copy().union_update(edited)))
         if kind == 3 and d.objects and d.properties and not set(d.objects) & set(d.properties):
             rec('context-of-definition', lambda: str(C(*d).lattice))
     return ev, sorted(tags)
